@@ -713,7 +713,7 @@ fn two_pairs(eng: &mut Eng) {
 }
 
 pub fn run(ctx: &Ctx) -> Vec<Eng> {
-    let max_n = if ctx.thorough { 8 } else { 6 };
+    let max_n = if ctx.thorough { 10 } else { 6 };
     let mut e1 = Eng::new(
         "c09-link-bfs",
         "explicit-state BFS: state = link structure decoded from what every terminal reads; actions = connect(i,j) for all ordered i!=j and disconnect(i); each transition executed on fresh real terminals after replaying the state's witness history; non-trivial = the action touches at least one already linked terminal",
